@@ -5,3 +5,667 @@ From LunaLib Require Import Netlist Bits Affine Machine PackN SsWords.
 From LunaModel Require Import Crc Crc_proofs DataRx DataRx_proofs RawTx.
 Ltac Zify.zify_post_hook ::= Z.div_mod_to_equations.
 Open Scope N_scope.
+
+(* ------------------------------------------------------------------------------------------------------ *)
+(* 1. byte-valid masks                                                                                     *)
+Lemma rtx_nbytes_cases : forall v, rtx_nbytes v <> 0 ->
+  (v = 1 /\ rtx_nbytes v = 1) \/ (v = 3 /\ rtx_nbytes v = 2) \/ (v = 7 /\ rtx_nbytes v = 3) \/ (v = 15 /\ rtx_nbytes v = 4).
+Proof.
+  intros v H. unfold rtx_nbytes in *.
+  destruct (v =? 15) eqn:E15; [right; right; right; split; [lia | reflexivity]|].
+  destruct (v =? 7) eqn:E7; [right; right; left; split; [lia | reflexivity]|].
+  destruct (v =? 3) eqn:E3; [right; left; split; [lia | reflexivity]|].
+  destruct (v =? 1) eqn:E1; [left; split; [lia | reflexivity]|]. contradiction.
+Qed.
+
+(* ------------------------------------------------------------------------------------------------------ *)
+(* 2. the transmitter frames packets: cycle-exact equality with the wire specification                      *)
+Definition rtx_tailw (pv pw crc : N) : list (N * N) :=
+  [(rtx_last_word pv pw crc, 0); rtx_crc_word pv crc; rtx_fin_word pv].
+Fixpoint rtx_pay_rest (bs : list (N * N)) (crc : N) : list (N * N) :=
+  match bs with
+  | [] => []
+  | b :: t => match t with [] => rtx_tailw (snd b) (fst b) crc | _ => (fst b, 0) :: rtx_pay_rest t crc end
+  end.
+
+Lemma rtx_pay_rest_nonempty : forall bs crc, bs <> [] -> rtx_pay_rest bs crc <> [].
+Proof. intros [|b [|b2 t]] crc H; [contradiction | discriminate | discriminate]. Qed.
+
+Section Framing.
+  Variable U : crc_units.
+  Variables h16 c32f r16 r32 : list N -> N.
+  Hypothesis H16i : r16 [] = u16_init U.
+  Hypothesis H16a : forall ws w, u16_adv U (r16 ws) w = r16 (ws ++ [w]).
+  Hypothesis H16o : forall ws, u16_out U (r16 ws) = h16 ws.
+  Hypothesis H32i : r32 [] = u32_init U.
+  Hypothesis H32a : forall bs k w, 1 <= k <= 4 ->
+    u32_adv U (r32 bs) k w = r32 (bs ++ firstn (N.to_nat k) (drx_bytes4 w)).
+  Hypothesis H32o : forall bs, u32_out U (r32 bs) = c32f bs.
+
+  Variable p : rtx_pkt.
+  Hypothesis Hb0 : p_dw0 p < 4294967296.
+  Hypothesis Hb1 : p_dw1 p < 4294967296.
+  Hypothesis Hb2 : p_dw2 p < 4294967296.
+  Hypothesis Hbl : p_lf p < 4294967296.
+  Hypothesis Hbeats : beats_ok (p_beats p) = true.
+
+  Let crc := c32f (p_payload p).
+  Definition rtx_dpp_x : list (N * N) :=
+    if p_delayed p then [RTX_DPPABORT]
+    else match p_beats p with
+         | [] => [rtx_crc_word 15 crc; rtx_fin_word 15]
+         | bs => rtx_pay_rest bs crc
+         end.
+  Definition rtx_rest_x : list (N * N) := if p_is_data p then RTX_DPPSTART :: rtx_dpp_x else [].
+  Definition rtx_d3w : N * N := (rtx_dw3 (h16 [p_dw0 p; p_dw1 p; p_dw2 p]) (p_lf p), 0).
+  (* the wire, word by word as the FSM produces it *)
+  Definition rtx_wire_x : list (N * N) :=
+    RTX_HPSTART :: (p_dw0 p, 0) :: (p_dw1 p, 0) :: (p_dw2 p, 0) :: rtx_d3w :: rtx_rest_x.
+
+  Definition rtx_latched (s : rtx_state) : Prop :=
+    th0 s = p_dw0 p /\ th1 s = p_dw1 p /\ th2 s = p_dw2 p /\ thl s = p_lf p.
+  Definition rtx_hdr_inv (s : rtx_state) (bs : list (N * N)) (k16 : list N) : Prop :=
+    rtx_latched s /\ t16 s = r16 k16 /\ t32 s = r32 [] /\ bs = p_beats p.
+
+  Definition rtx_inv (s : rtx_state) (bs ws : list (N * N)) : Prop :=
+    match tf s with
+    | TIDLE => ws = []
+    | THP => rtx_hdr_inv s bs [] /\ ws = rtx_wire_x
+    | TDW0 => rtx_hdr_inv s bs [] /\ ws = (p_dw0 p, 0) :: (p_dw1 p, 0) :: (p_dw2 p, 0) :: rtx_d3w :: rtx_rest_x
+    | TDW1 => rtx_hdr_inv s bs [p_dw0 p] /\ ws = (p_dw1 p, 0) :: (p_dw2 p, 0) :: rtx_d3w :: rtx_rest_x
+    | TDW2 => rtx_hdr_inv s bs [p_dw0 p; p_dw1 p] /\ ws = (p_dw2 p, 0) :: rtx_d3w :: rtx_rest_x
+    | TDW3 => rtx_hdr_inv s bs [p_dw0 p; p_dw1 p; p_dw2 p] /\ ws = rtx_d3w :: rtx_rest_x
+    | TSDP => rtx_latched s /\ t32 s = r32 [] /\ bs = p_beats p /\
+              tzlp s = match p_beats p with [] => true | _ => false end /\ ws = RTX_DPPSTART :: rtx_dpp_x
+    | TPAY => exists consumed, bs <> [] /\ beats_ok bs = true /\ t32 s = r32 consumed /\
+              consumed ++ flat_map beat_bytes bs = p_payload p /\ ws = (tpw s, 0) :: rtx_pay_rest bs crc
+    | TLAST => u32_out U (t32 s) = crc /\ ws = rtx_tailw (tpv s) (tpw s) crc
+    | TCRC => u32_out U (t32 s) = crc /\ ws = [rtx_crc_word (tpv s) crc; rtx_fin_word (tpv s)]
+    | TFIN => ws = [rtx_fin_word (tpv s)]
+    | TABORT => ws = [RTX_DPPABORT]
+    end.
+
+  (* one step of the specification *)
+  Definition wire_hd (ws : list (N * N)) (r : bool) : rtx_obs :=
+    match ws with
+    | [] => rtx_idle_obs
+    | w :: ws' => (true, w, r && match ws' with [] => true | _ => false end)
+    end.
+  Definition wire_tl (ws : list (N * N)) (r : bool) : list (N * N) :=
+    match ws with [] => [] | _ :: ws' => if r then ws' else ws end.
+
+  Lemma wire_run_cons : forall ws r t, wire_run ws (r :: t) = wire_hd ws r :: wire_run (wire_tl ws r) t.
+  Proof. intros [|w ws'] r t; reflexivity. Qed.
+
+  (* taking a beat from the producer: shared by START_DPP and SEND_PAYLOAD *)
+  Lemma rtx_take_beat : forall consumed b t,
+    beats_ok (b :: t) = true -> consumed ++ flat_map beat_bytes (b :: t) = p_payload p ->
+    rtx_nbytes (snd b) <> 0 /\
+    u32_adv U (r32 consumed) (rtx_nbytes (snd b)) (fst b) = r32 (consumed ++ beat_bytes b) /\
+    (t = [] -> c32f (consumed ++ beat_bytes b) = crc) /\
+    (t <> [] -> beats_ok t = true /\ (consumed ++ beat_bytes b) ++ flat_map beat_bytes t = p_payload p).
+  Proof.
+    intros consumed b t Hok Hpay.
+    assert (Hn : rtx_nbytes (snd b) <> 0).
+    { destruct t as [|b2 t2]; cbn [beats_ok] in Hok.
+      - apply andb_true_iff in Hok as [Hn _]. destruct (rtx_nbytes (snd b) =? 0) eqn:E; [discriminate | lia].
+      - apply andb_true_iff in Hok as [Hn _]. apply andb_true_iff in Hn as [Hn _]. apply N.eqb_eq in Hn. rewrite Hn. discriminate. }
+    split; [exact Hn|]. split.
+    - rewrite H32a; [reflexivity|]. destruct (rtx_nbytes_cases _ Hn) as [[_ E]|[[_ E]|[[_ E]|[_ E]]]]; rewrite E; lia.
+    - split.
+      + intros ->. cbn [flat_map] in Hpay. rewrite app_nil_r in Hpay. unfold crc. rewrite <- Hpay. reflexivity.
+      + intros Hne. destruct t as [|b2 t2]; [contradiction|]. cbn [beats_ok] in Hok.
+        apply andb_true_iff in Hok as [_ Hok]. split; [exact Hok|]. rewrite <- app_assoc. exact Hpay.
+  Qed.
+
+  Lemma rtx_head_mask_nonzero : forall b t, beats_ok (b :: t) = true -> (snd b =? 0) = false.
+  Proof.
+    intros b t Hok. destruct t as [|b2 t2]; cbn [beats_ok] in Hok.
+    - apply andb_true_iff in Hok as [Hn _]. destruct (snd b =? 0) eqn:E; [|reflexivity].
+      apply N.eqb_eq in E. rewrite E in Hn. discriminate.
+    - apply andb_true_iff in Hok as [Hn _]. apply andb_true_iff in Hn as [Hn _]. apply N.eqb_eq in Hn. rewrite Hn. reflexivity.
+  Qed.
+
+  Ltac rsimp := unfold rtx_inv, rtx_hdr_inv, rtx_latched in *;
+                cbn [tf th0 th1 th2 thl tpw tpv tzlp t16 t32 fst snd] in *.
+
+  Lemma rtx_step_inv : forall s bs ws r, rtx_inv s bs ws ->
+    let so := rtx_next U s (rtx_env_in p false bs r) in
+    rtx_obs_of (snd so) = wire_hd ws r /\
+    rtx_inv (fst so) (if x_dready (snd so) then tl bs else bs) (wire_tl ws r).
+  Proof.
+    intros s bs ws r I. destruct s as [f h0 h1 h2 hl pw pv z a b].
+    destruct f; rsimp;
+      cbn [rtx_next tf fst snd rtx_env_in i_gen i_ready i_ddata i_dvalid i_dlast th0 th1 th2 thl tpw tpv tzlp t16 t32
+           rtx_obs_of x_valid x_data x_ctrl x_done x_dready andb].
+    - (* IDLE *) subst ws. split; reflexivity.
+    - (* HP *) destruct I as [[[L0 [L1 [L2 L3]]] [A [B E]]] ->]. subst.
+      destruct r; (split; [reflexivity|]); cbn [wire_tl rtx_wire_x]; rsimp; repeat split; reflexivity.
+    - (* DW0 *) destruct I as [[[L0 [L1 [L2 L3]]] [A [B E]]] ->]. subst.
+      destruct r; (split; [reflexivity|]); cbn [wire_tl]; rsimp; rewrite ?H16a; repeat split; reflexivity.
+    - (* DW1 *) destruct I as [[[L0 [L1 [L2 L3]]] [A [B E]]] ->]. subst.
+      destruct r; (split; [reflexivity|]); cbn [wire_tl]; rsimp; rewrite ?H16a; repeat split; reflexivity.
+    - (* DW2 *) destruct I as [[[L0 [L1 [L2 L3]]] [A [B E]]] ->]. subst.
+      destruct r; (split; [reflexivity|]); cbn [wire_tl]; rsimp; rewrite ?H16a; repeat split; reflexivity.
+    - (* DW3 *) destruct I as [[[L0 [L1 [L2 L3]]] [A [B E]]] ->]. subst. rewrite H16o.
+      fold (p_is_data p). unfold rtx_rest_x, rtx_d3w.
+      destruct (p_is_data p) eqn:D; destruct r; cbn [wire_hd wire_tl andb negb]; (split; [reflexivity|]); rsimp.
+      + repeat split; try reflexivity.
+        destruct (p_beats p) as [|b0 t0] eqn:EB; [reflexivity|]. cbn [fst snd]. apply (rtx_head_mask_nonzero b0 t0). exact Hbeats.
+      + repeat split; reflexivity.
+      + reflexivity.
+      + repeat split; reflexivity.
+    - (* START_DPP *) destruct I as [[L0 [L1 [L2 L3]]] [B [E [Z ->]]]]. subst.
+      fold (p_delayed p). unfold rtx_dpp_x.
+      destruct r; [|split; [reflexivity|]; cbn [wire_tl]; rsimp; repeat split; reflexivity].
+      destruct (p_delayed p) eqn:DL.
+      + split; [reflexivity|]. cbn [negb andb wire_tl]. rsimp. reflexivity.
+      + destruct (p_beats p) as [|b0 t0] eqn:EB.
+        * split; [reflexivity|]. cbn [negb andb wire_tl]. rsimp. split; [|reflexivity].
+          rewrite H32o. unfold crc, p_payload. rewrite EB. reflexivity.
+        * assert (Hpay : [] ++ flat_map beat_bytes (b0 :: t0) = p_payload p) by (unfold p_payload; rewrite EB; reflexivity).
+          pose proof (rtx_take_beat [] b0 t0 Hbeats Hpay) as [Hn [Hadv [Hlast Hmore]]].
+          cbn [negb andb wire_tl wire_hd tl]. split.
+          { unfold rtx_obs_of. cbn [x_valid x_data x_ctrl x_done]. f_equal.
+            destruct (rtx_pay_rest (b0 :: t0) crc) eqn:EP; [|reflexivity].
+            exfalso. apply (rtx_pay_rest_nonempty (b0 :: t0) crc); [discriminate | exact EP]. }
+          replace (negb (rtx_nbytes (snd b0) =? 0)) with true by (destruct (rtx_nbytes (snd b0) =? 0) eqn:E0; [lia | reflexivity]).
+          rewrite Hadv. destruct t0 as [|b1 t1]; rsimp.
+          -- split; [|reflexivity]. rewrite H32o. apply Hlast. reflexivity.
+          -- destruct (Hmore ltac:(discriminate)) as [Hok' Hpay']. exists ([] ++ beat_bytes b0).
+             repeat split; try assumption; try reflexivity. discriminate.
+    - (* SEND_PAYLOAD *) destruct I as [consumed [Hne [Hok [B [Hpay ->]]]]]. subst.
+      destruct r; [|split; [reflexivity|]; cbn [wire_tl]; rsimp; exists consumed; repeat split; assumption || reflexivity].
+      destruct bs as [|b0 t0]; [contradiction|].
+      pose proof (rtx_take_beat consumed b0 t0 Hok Hpay) as [Hn [Hadv [Hlast Hmore]]].
+      cbn [wire_hd wire_tl tl fst snd]. split.
+      + f_equal. f_equal. destruct (rtx_pay_rest (b0 :: t0) crc) eqn:EP; [|reflexivity].
+        exfalso. apply (rtx_pay_rest_nonempty (b0 :: t0) crc); [discriminate | exact EP].
+      + replace (negb (rtx_nbytes (snd b0) =? 0)) with true by (destruct (rtx_nbytes (snd b0) =? 0) eqn:E0; [lia | reflexivity]).
+        rewrite Hadv. destruct t0 as [|b1 t1]; rsimp.
+        * split; [|reflexivity]. rewrite H32o. apply Hlast. reflexivity.
+        * destruct (Hmore ltac:(discriminate)) as [Hok' Hpay']. exists (consumed ++ beat_bytes b0).
+          repeat split; try assumption; try reflexivity. discriminate.
+    - (* SEND_LAST_WORD *) destruct I as [C ->]. rewrite C.
+      destruct r; (split; [reflexivity|]); cbn [wire_tl rtx_tailw]; rsimp; [split; reflexivity | split; reflexivity].
+    - (* SEND_CRC *) destruct I as [C ->]. rewrite C.
+      destruct r; (split; [destruct (rtx_crc_word pv crc); reflexivity|]); cbn [wire_tl]; rsimp; [reflexivity | split; reflexivity].
+    - (* FINISH_DPP *) subst ws.
+      destruct r; (split; [destruct (rtx_fin_word pv); reflexivity|]); cbn [wire_tl]; rsimp; reflexivity.
+    - (* ABORT_DPP *) subst ws. destruct r; (split; [reflexivity|]); cbn [wire_tl]; rsimp; reflexivity.
+  Qed.
+
+  Lemma rtx_loop_inv : forall rdys s bs ws, rtx_inv s bs ws ->
+    map rtx_obs_of (rtx_loop U p s bs false rdys) = wire_run ws rdys.
+  Proof.
+    induction rdys as [|r t IH]; intros s bs ws I; [reflexivity|].
+    cbn [rtx_loop]. rewrite wire_run_cons.
+    pose proof (rtx_step_inv s bs ws r I) as [Ho In]. cbv zeta in Ho, In.
+    destruct (rtx_next U s (rtx_env_in p false bs r)) as [s' o]. cbn [fst snd map] in *.
+    rewrite Ho. f_equal. apply IH. exact In.
+  Qed.
+
+  Lemma rtx_hdr_word_fields :
+    bits (rtx_hdr_word p) 0 32 = p_dw0 p /\ bits (rtx_hdr_word p) 32 32 = p_dw1 p /\
+    bits (rtx_hdr_word p) 64 32 = p_dw2 p /\ bits (rtx_hdr_word p) 96 32 = p_lf p.
+  Proof.
+    unfold rtx_hdr_word. rewrite !bits_spec.
+    change (2 ^ 0) with 1; change (2 ^ 32) with 4294967296; change (2 ^ 64) with (4294967296 * 4294967296);
+      change (2 ^ 96) with (4294967296 * (4294967296 * 4294967296)).
+    rewrite N.div_1_r. rewrite <- !N.div_div by lia.
+    set (W := 4294967296) in *.
+    assert (E1 : (p_dw0 p + W * (p_dw1 p + W * (p_dw2 p + W * p_lf p))) / W = p_dw1 p + W * (p_dw2 p + W * p_lf p))
+      by (apply (pk_div W); exact Hb0).
+    assert (E2 : (p_dw1 p + W * (p_dw2 p + W * p_lf p)) / W = p_dw2 p + W * p_lf p) by (apply (pk_div W); exact Hb1).
+    assert (E3 : (p_dw2 p + W * p_lf p) / W = p_lf p) by (apply (pk_div W); exact Hb2).
+    rewrite E1, E2, E3. repeat split.
+    - apply (pk_mod W); exact Hb0.
+    - apply (pk_mod W); exact Hb1.
+    - apply (pk_mod W); exact Hb2.
+    - apply N.mod_small. exact Hbl.
+  Qed.
+
+  (* C36, transmit side: generate in the first cycle, then ANY ready pattern *)
+  Theorem rtx_frames : forall r0 rdys,
+    map rtx_obs_of (rtx_loop U p (rtx_init U) (p_beats p) true (r0 :: rdys)) = rtx_idle_obs :: wire_run rtx_wire_x rdys.
+  Proof.
+    intros r0 rdys. cbn [rtx_loop rtx_next rtx_init tf rtx_env_in i_gen map rtx_obs_of x_valid x_data x_ctrl x_done x_dready].
+    f_equal. apply rtx_loop_inv. unfold rtx_inv, rtx_hdr_inv, rtx_latched. cbn [tf th0 th1 th2 thl t16 t32 i_hdr].
+    change (i_hdr (rtx_env_in p true (p_beats p) r0)) with (rtx_hdr_word p).
+    destruct rtx_hdr_word_fields as [F0 [F1 [F2 F3]]]. rewrite F0, F1, F2, F3, H16i, H32i. repeat split; reflexivity.
+  Qed.
+End Framing.
+
+(* ------------------------------------------------------------------------------------------------------ *)
+(* 3. the word-by-word wire equals the declarative symbol stream                                            *)
+Definition rtx_nosym (b : N) : N * bool := (b, false).
+Definition rtx_endseq : list (N * bool) := [(SYM_END, true); (SYM_END, true); (SYM_END, true); (SYM_EPF, true)].
+
+Ltac bits_arith :=
+  rewrite ?bits_spec;
+  change (2 ^ 0) with 1; change (2 ^ 8) with 256; change (2 ^ 16) with 65536; change (2 ^ 24) with 16777216;
+  change (2 ^ 32) with 4294967296; unfold SYM_END, SYM_EPF; lia.
+
+Ltac rtx_pairs := repeat match goal with
+  | |- _ :: _ = _ :: _ => f_equal
+  | |- (_, _) = (_, _) => apply f_equal2
+  end.
+
+Lemma rtx_words_full : forall w S, w < 4294967296 ->
+  words_of_syms (map rtx_nosym (drx_bytes4 w) ++ S) = (w, 0) :: words_of_syms S.
+Proof.
+  intros w S Hw. cbn [drx_bytes4 map app words_of_syms]. f_equal. unfold sym_word. cbn [map fst snd rtx_nosym].
+  f_equal. apply (drx_le_word w Hw).
+Qed.
+
+Lemma rtx_words_end : words_of_syms rtx_endseq = [RTX_DPPEND].
+Proof. vm_compute. reflexivity. Qed.
+
+Lemma rtx_dpp_words : forall bs crc, beats_ok bs = true -> crc < 4294967296 ->
+  words_of_syms (map rtx_nosym (flat_map beat_bytes bs ++ drx_bytes4 crc) ++ rtx_endseq)
+  = match bs with [] => [rtx_crc_word 15 crc; rtx_fin_word 15] | _ => rtx_pay_rest bs crc end.
+Proof.
+  intros bs crc. induction bs as [|b t IH]; intros Hok Hc.
+  - cbn [flat_map app]. rewrite rtx_words_full by exact Hc. rewrite rtx_words_end. reflexivity.
+  - destruct t as [|b2 t2].
+    + (* the last beat *)
+      cbn [beats_ok] in Hok. apply andb_true_iff in Hok as [Hn Hw]. apply N.ltb_lt in Hw.
+      assert (Hn' : rtx_nbytes (snd b) <> 0) by (destruct (rtx_nbytes (snd b) =? 0) eqn:E; [discriminate | lia]).
+      destruct b as [w v]. cbn [fst snd] in *. cbn [flat_map rtx_pay_rest fst snd]. rewrite app_nil_r. unfold beat_bytes. cbn [fst snd].
+      destruct (rtx_nbytes_cases v Hn') as [[-> E]|[[-> E]|[[-> E]|[-> E]]]]; rewrite E.
+      * change (N.to_nat 1) with 1%nat. cbn [firstn drx_bytes4 app map words_of_syms]. unfold rtx_tailw, sym_word, rtx_nosym, rtx_endseq.
+        cbn [map fst snd rtx_last_word rtx_crc_word rtx_fin_word drx_le].
+        rtx_pairs; try reflexivity; bits_arith.
+      * change (N.to_nat 2) with 2%nat. cbn [firstn drx_bytes4 app map words_of_syms]. unfold rtx_tailw, sym_word, rtx_nosym, rtx_endseq.
+        cbn [map fst snd rtx_last_word rtx_crc_word rtx_fin_word drx_le].
+        rtx_pairs; try reflexivity; bits_arith.
+      * change (N.to_nat 3) with 3%nat. cbn [firstn drx_bytes4 app map words_of_syms]. unfold rtx_tailw, sym_word, rtx_nosym, rtx_endseq.
+        cbn [map fst snd rtx_last_word rtx_crc_word rtx_fin_word drx_le].
+        rtx_pairs; try reflexivity; bits_arith.
+      * change (N.to_nat 4) with 4%nat. change (firstn 4 (drx_bytes4 w)) with (drx_bytes4 w).
+        rewrite map_app, <- app_assoc, rtx_words_full by exact Hw. rewrite rtx_words_full by exact Hc. rewrite rtx_words_end.
+        reflexivity.
+    + (* a full word, more to come *)
+      change (beats_ok (b :: b2 :: t2)) with ((snd b =? 15) && (fst b <? 4294967296) && beats_ok (b2 :: t2)) in Hok.
+      apply andb_true_iff in Hok as [Hb Hok]. apply andb_true_iff in Hb as [Hv Hw]. apply N.eqb_eq in Hv. apply N.ltb_lt in Hw.
+      change (flat_map beat_bytes (b :: b2 :: t2)) with (beat_bytes b ++ flat_map beat_bytes (b2 :: t2)).
+      unfold beat_bytes at 1. rewrite Hv. change (N.to_nat (rtx_nbytes 15)) with 4%nat.
+      change (firstn 4 (drx_bytes4 (fst b))) with (drx_bytes4 (fst b)).
+      rewrite <- app_assoc, map_app, <- app_assoc, rtx_words_full by exact Hw.
+      rewrite IH by assumption. reflexivity.
+Qed.
+
+(* the wire specification of Model/RawTx.v, for a well-formed packet, is the word-by-word wire *)
+Theorem rtx_wire_explicit : forall h16 c32f p, beats_ok (p_beats p) = true -> (forall bs, c32f bs < 4294967296) ->
+  wire h16 c32f p = rtx_wire_x h16 c32f p.
+Proof.
+  intros h16 c32f p Hok Hc. unfold wire, rtx_wire_x, wire_header, rtx_rest_x, rtx_d3w. cbn [app]. repeat f_equal.
+  destruct (p_is_data p); [|reflexivity]. unfold rtx_dpp_x. destruct (p_delayed p); [reflexivity|].
+  unfold wire_dpp. f_equal.
+  pose proof (rtx_dpp_words (p_beats p) (c32f (p_payload p)) Hok (Hc _)) as W.
+  change (map (fun b : N => (b, false)) (p_payload p ++ drx_bytes4 (c32f (p_payload p))) ++
+          [(SYM_END, true); (SYM_END, true); (SYM_END, true); (SYM_EPF, true)])
+    with (map rtx_nosym (flat_map beat_bytes (p_beats p) ++ drx_bytes4 (c32f (p_payload p))) ++ rtx_endseq).
+  rewrite W. destruct (p_beats p); reflexivity.
+Qed.
+
+(* ------------------------------------------------------------------------------------------------------ *)
+(* 4. reading the cycle-exact statement: accepted words and `done`                                          *)
+Fixpoint rtx_count_true (l : list bool) : nat := match l with [] => O | b :: t => (if b then 1 else 0) + rtx_count_true t end.
+
+Fixpoint obs_accepted (rdys : list bool) (obs : list rtx_obs) : list (N * N) :=
+  match rdys, obs with
+  | r :: t, (v, w, _) :: o => (if r && v then [w] else []) ++ obs_accepted t o
+  | _, _ => []
+  end.
+Definition obs_dones (obs : list rtx_obs) : nat := length (filter (fun o : rtx_obs => snd o) obs).
+
+Lemma wire_run_accepted : forall rdys ws, obs_accepted rdys (wire_run ws rdys) = firstn (rtx_count_true rdys) ws.
+Proof.
+  induction rdys as [|r t IH]; intros ws; [reflexivity|].
+  destruct ws as [|w ws']; cbn [wire_run obs_accepted rtx_idle_obs rtx_count_true].
+  - rewrite andb_false_r. cbn [app]. rewrite IH. rewrite !firstn_nil. reflexivity.
+  - rewrite andb_true_r. destruct r; cbn [app Nat.add]; rewrite IH; reflexivity.
+Qed.
+
+Lemma wire_run_dones : forall rdys ws,
+  obs_dones (wire_run ws rdys) = if (Nat.ltb 0 (length ws) && Nat.leb (length ws) (rtx_count_true rdys))%bool then 1%nat else 0%nat.
+Proof.
+  unfold obs_dones. induction rdys as [|r t IH]; intros ws.
+  - cbn. destruct ws; reflexivity.
+  - destruct ws as [|w ws']; cbn [wire_run rtx_idle_obs filter snd length rtx_count_true].
+    + rewrite IH. reflexivity.
+    + destruct r; cbn [andb Nat.add].
+      * destruct ws' as [|w2 ws2]; cbn [filter snd length].
+        -- rewrite IH. reflexivity.
+        -- rewrite IH. cbn [length]. reflexivity.
+      * rewrite IH. cbn [length]. reflexivity.
+Qed.
+
+(* ------------------------------------------------------------------------------------------------------ *)
+(* 5. instances                                                                                             *)
+Lemma drx_crc32_lt : forall bs, crc32_usb bs < 4294967296.
+Proof.
+  intro bs. unfold crc32_usb. pose proof (bits2N_bound (crc_bits poly32 (bits_of_units 8 bs))) as B.
+  assert (L : length (crc_bits poly32 (bits_of_units 8 bs)) = 32%nat).
+  { unfold crc_bits, crc_finish. rewrite map_length, rev_length.
+    change (crc_shifts bool xorb false poly32 (repeat true (length poly32)) (bits_of_units 8 bs))
+      with (crc_update poly32 (repeat true 32) (bits_of_units 8 bs)).
+    rewrite drx_crc_update_length; [reflexivity | reflexivity | discriminate]. }
+  rewrite L in B. exact B.
+Qed.
+
+Lemma drx_stub_c32_lt : forall bs, drx_stub_c32 bs < 4294967296.
+Proof.
+  unfold drx_stub_c32. assert (G : forall bs acc, acc < 2 ^ 32 -> fold_left (fun r b => N.lxor r (bits b 0 2)) bs acc < 2 ^ 32).
+  { induction bs as [|b t IH]; intros acc Ha; [exact Ha|]. cbn [fold_left]. apply IH. apply drx_lxor_lt_pow2; [exact Ha|].
+    pose proof (bits_lt b 0 2) as Hb. change (2 ^ 2) with 4 in Hb. change (2 ^ 32) with 4294967296. lia. }
+  intro bs. apply (G bs 3). cbn. lia.
+Qed.
+
+Definition rtx_pkt_ok (p : rtx_pkt) : Prop :=
+  p_dw0 p < 4294967296 /\ p_dw1 p < 4294967296 /\ p_dw2 p < 4294967296 /\ p_lf p < 4294967296 /\
+  beats_ok (p_beats p) = true.
+
+Theorem rtx_real_frames : forall p r0 rdys, rtx_pkt_ok p ->
+  map rtx_obs_of (rtx_loop drx_real_units p (rtx_init drx_real_units) (p_beats p) true (r0 :: rdys))
+  = rtx_idle_obs :: wire_run (wire crc16_hdr crc32_usb p) rdys.
+Proof.
+  intros p r0 rdys (H0 & H1 & H2 & H3 & Hb).
+  rewrite (rtx_wire_explicit crc16_hdr crc32_usb p Hb drx_crc32_lt).
+  apply (rtx_frames drx_real_units crc16_hdr crc32_usb drx_reg16_of drx_reg32_of); try assumption.
+  - exact drx_real16_init.
+  - exact drx_real16_adv.
+  - exact drx_real16_out.
+  - exact drx_real32_init.
+  - exact drx_real32_adv.
+  - exact drx_real32_out.
+Qed.
+
+Theorem rtx_stub_frames : forall p r0 rdys, rtx_pkt_ok p ->
+  map rtx_obs_of (rtx_loop drx_stub_units p (rtx_init drx_stub_units) (p_beats p) true (r0 :: rdys))
+  = rtx_idle_obs :: wire_run (wire drx_stub_h16 drx_stub_c32 p) rdys.
+Proof.
+  intros p r0 rdys (H0 & H1 & H2 & H3 & Hb).
+  rewrite (rtx_wire_explicit drx_stub_h16 drx_stub_c32 p Hb drx_stub_c32_lt).
+  apply (rtx_frames drx_stub_units drx_stub_h16 drx_stub_c32 drx_stub_h16 drx_stub_c32); try assumption.
+  - reflexivity.
+  - intros. unfold drx_stub_h16. rewrite fold_left_app. reflexivity.
+  - reflexivity.
+  - reflexivity.
+  - intros. cbn [u32_adv drx_stub_units]. apply drx_stub32_adv. assumption.
+  - reflexivity.
+Qed.
+
+(* ------------------------------------------------------------------------------------------------------ *)
+(* 6. the fourth header word                                                                                *)
+Lemma drx_crc16h_lt : forall ws, crc16_hdr ws < 65536.
+Proof.
+  intro ws. unfold crc16_hdr. pose proof (bits2N_bound (crc_bits poly16h (bits_of_units 32 ws))) as B.
+  assert (L : length (crc_bits poly16h (bits_of_units 32 ws)) = 16%nat).
+  { unfold crc_bits, crc_finish. rewrite map_length, rev_length.
+    change (crc_shifts bool xorb false poly16h (repeat true (length poly16h)) (bits_of_units 32 ws))
+      with (crc_update poly16h (repeat true 16) (bits_of_units 32 ws)).
+    rewrite drx_crc_update_length; [reflexivity | reflexivity | discriminate]. }
+  rewrite L in B. exact B.
+Qed.
+
+Lemma rtx_dw3_fields : forall c lf, c < 65536 ->
+  bits (rtx_dw3 c lf) 0 16 = c /\ bits (rtx_dw3 c lf) 16 11 = bits lf 16 11 /\
+  bits (rtx_dw3 c lf) 27 5 = crc5_usb (bits lf 16 11) /\ bits (rtx_dw3 c lf) 16 3 = bits lf 16 3 /\
+  rtx_dw3 c lf < 4294967296.
+Proof.
+  intros c lf Hc. unfold rtx_dw3. pose proof (drx_crc5_lt (bits lf 16 11)) as H5.
+  pose proof (bits_lt lf 16 11) as H11. change (2 ^ 11) with 2048 in H11.
+  set (L := bits lf 16 11) in *. set (K := crc5_usb L) in *.
+  assert (E3 : bits lf 16 3 = L mod 8).
+  { unfold L. rewrite !bits_spec. change (2 ^ 16) with 65536; change (2 ^ 3) with 8; change (2 ^ 11) with 2048. lia. }
+  rewrite E3. rewrite !bits_spec.
+  change (2 ^ 0) with 1; change (2 ^ 16) with 65536; change (2 ^ 11) with 2048; change (2 ^ 27) with 134217728;
+    change (2 ^ 5) with 32; change (2 ^ 3) with 8.
+  repeat split; lia.
+Qed.
+
+(* ------------------------------------------------------------------------------------------------------ *)
+(* 7. round trip, header: RawHeaderPacketReceiver recovers the header from the transmitted words, with any
+      invalid words interleaved                                                                             *)
+Section HdrRoundTrip.
+  Variable U : crc_units.
+  Variables h16 r16f : list N -> N.
+  Hypothesis H16i : r16f [] = u16_init U.
+  Hypothesis H16a : forall ws w, u16_adv U (r16f ws) w = r16f (ws ++ [w]).
+  Hypothesis H16o : forall ws, u16_out U (r16f ws) = h16 ws.
+  Hypothesis H16b : forall ws, h16 ws < 65536.
+  Variable p : rtx_pkt.
+  Variable eseq : N.
+
+  Let d3 := rtx_dw3 (h16 [p_dw0 p; p_dw1 p; p_dw2 p]) (p_lf p).
+
+  (* progress through the header: k words of it have been taken *)
+  Definition rhr_prog (k : nat) (s : rhr_state) : Prop :=
+    match k with
+    | 0%nat => rf s = RWAIT
+    | 1%nat => rf s = RDW0 /\ r16 s = r16f []
+    | 2%nat => rf s = RDW1 /\ r16 s = r16f [p_dw0 p] /\ rp0 s = p_dw0 p
+    | 3%nat => rf s = RDW2 /\ r16 s = r16f [p_dw0 p; p_dw1 p] /\ rp0 s = p_dw0 p /\ rp1 s = p_dw1 p
+    | 4%nat => rf s = RDW3 /\ r16 s = r16f [p_dw0 p; p_dw1 p; p_dw2 p] /\ rp0 s = p_dw0 p /\ rp1 s = p_dw1 p /\ rp2 s = p_dw2 p
+    | _ => rf s = RCHK /\ r16 s = r16f [p_dw0 p; p_dw1 p; p_dw2 p] /\ rp0 s = p_dw0 p /\ rp1 s = p_dw1 p /\ rp2 s = p_dw2 p /\
+           rp3 s = d3 /\ rx5 s = crc5_usb (bits d3 16 11)
+    end.
+
+  Definition rhr_invalid (w : bool * (N * N)) : Prop := fst w = false.
+
+  Lemma rhr_prog_gap : forall g k s, (k <= 4)%nat -> Forall rhr_invalid g -> rhr_prog k s ->
+    rhr_prog k (rhr_state_after U s eseq g).
+  Proof.
+    induction g as [|[v [d c]] g IH]; intros k s Hk Hg P; [exact P|].
+    inversion Hg as [|? ? Hv Hg']; subst. unfold rhr_invalid in Hv. cbn [fst] in Hv. subst v.
+    cbn [rhr_state_after]. apply IH; [exact Hk | exact Hg'|].
+    destruct s as [f a0 a1 a2 a3 x k16 n o].
+    destruct k as [|[|[|[|[|k]]]]]; try lia; cbn [rhr_prog rf r16 rp0 rp1 rp2 rp3 rx5] in *.
+    - subst f. reflexivity.
+    - destruct P as [-> P]. cbn [rhr_next rf fst r16]. exact (conj eq_refl P).
+    - destruct P as [-> P]. cbn [rhr_next rf fst r16 rp0]. exact (conj eq_refl P).
+    - destruct P as [-> P]. cbn [rhr_next rf fst r16 rp0 rp1]. exact (conj eq_refl P).
+    - destruct P as [-> P]. cbn [rhr_next rf fst r16 rp0 rp1 rp2]. exact (conj eq_refl P).
+  Qed.
+
+  Lemma rhr_after_app : forall a b s,
+    rhr_state_after U s eseq (a ++ b) = rhr_state_after U (rhr_state_after U s eseq a) eseq b.
+  Proof. induction a as [|[v [d c]] a IH]; intros b s; [reflexivity|]. cbn [app rhr_state_after]. apply IH. Qed.
+
+  Lemma rhr_prog_word : forall k s, (k <= 4)%nat -> rhr_prog k s ->
+    rhr_prog (S k) (rhr_state_after U s eseq
+      [(true, nth k [RTX_HPSTART; (p_dw0 p, 0); (p_dw1 p, 0); (p_dw2 p, 0); (d3, 0)] (0, 0))]).
+  Proof.
+    intros k s Hk P. destruct s as [f a0 a1 a2 a3 x k16 n o].
+    destruct k as [|[|[|[|[|k]]]]]; try lia; cbn [rhr_prog rf r16 rp0 rp1 rp2 rp3 rx5 nth rhr_state_after] in *.
+    - subst f. cbn [rhr_next rf fst r16 RTX_HPSTART snd andb]. rewrite !N.eqb_refl. cbn [andb rf r16]. split; [reflexivity | symmetry; exact H16i].
+    - destruct P as [-> ->]. cbn [rhr_next rf fst r16 rp0]. rewrite H16a. repeat split; reflexivity.
+    - destruct P as [-> [-> ->]]. cbn [rhr_next rf fst r16 rp0 rp1]. rewrite H16a. repeat split; reflexivity.
+    - destruct P as [-> [-> [-> ->]]]. cbn [rhr_next rf fst r16 rp0 rp1 rp2]. rewrite H16a. repeat split; reflexivity.
+    - destruct P as [-> [-> [-> [-> ->]]]]. cbn [rhr_next rf fst r16 rp0 rp1 rp2 rp3 rx5]. repeat split; reflexivity.
+  Qed.
+
+  Theorem rhr_roundtrip : forall s g0 g1 g2 g3 g4 x,
+    rf s = RWAIT -> eseq = bits (p_lf p) 16 3 ->
+    Forall rhr_invalid g0 -> Forall rhr_invalid g1 -> Forall rhr_invalid g2 -> Forall rhr_invalid g3 -> Forall rhr_invalid g4 ->
+    let s' := rhr_state_after U s eseq
+                (g0 ++ [(true, RTX_HPSTART)] ++ g1 ++ [(true, (p_dw0 p, 0))] ++ g2 ++ [(true, (p_dw1 p, 0))] ++
+                 g3 ++ [(true, (p_dw2 p, 0))] ++ g4 ++ [(true, (d3, 0))] ++ [x]) in
+    rf s' = RWAIT /\ rnew s' = true /\
+    rout s' = p_dw0 p + 4294967296 * (p_dw1 p + 4294967296 * (p_dw2 p + 4294967296 * d3)).
+  Proof.
+    intros s g0 g1 g2 g3 g4 x Hs He G0 G1 G2 G3 G4.
+    pose proof (rhr_prog_gap g0 0 s ltac:(lia) G0 Hs) as P0.
+    pose proof (rhr_prog_word 0 _ ltac:(lia) P0) as P1. cbn [nth] in P1.
+    pose proof (rhr_prog_gap g1 1 _ ltac:(lia) G1 P1) as P1'.
+    pose proof (rhr_prog_word 1 _ ltac:(lia) P1') as P2. cbn [nth] in P2.
+    pose proof (rhr_prog_gap g2 2 _ ltac:(lia) G2 P2) as P2'.
+    pose proof (rhr_prog_word 2 _ ltac:(lia) P2') as P3. cbn [nth] in P3.
+    pose proof (rhr_prog_gap g3 3 _ ltac:(lia) G3 P3) as P3'.
+    pose proof (rhr_prog_word 3 _ ltac:(lia) P3') as P4. cbn [nth] in P4.
+    pose proof (rhr_prog_gap g4 4 _ ltac:(lia) G4 P4) as P4'.
+    pose proof (rhr_prog_word 4 _ ltac:(lia) P4') as P5. cbn [nth] in P5.
+    cbv zeta. rewrite !rhr_after_app.
+    set (s5 := rhr_state_after U _ eseq [(true, (d3, 0))]) in *.
+    destruct P5 as [F [K [A0 [A1 [A2 [A3 X5]]]]]].
+    destruct x as [v [d c]]. cbn [rhr_state_after]. destruct s5 as [f a0 a1 a2 a3 x5 k16 n o].
+    cbn [rf r16 rp0 rp1 rp2 rp3 rx5] in *. subst f k16 a0 a1 a2 a3 x5.
+    cbn [rhr_next rf fst rnew rout rx5 rp3 r16 rp0 rp1 rp2]. rewrite H16o.
+    destruct (rtx_dw3_fields (h16 [p_dw0 p; p_dw1 p; p_dw2 p]) (p_lf p) (H16b _)) as [F0 [F11 [F5 [F3 _]]]].
+    fold d3 in F0, F11, F5, F3. rewrite F0, F5, F11, F3, He, !N.eqb_refl. cbn [negb orb andb]. repeat split; reflexivity.
+  Qed.
+End HdrRoundTrip.
+
+(* ------------------------------------------------------------------------------------------------------ *)
+(* 8. round trip, data: the specification of DataPacketReceiver (C40) run over the transmitted words yields the
+      payload and `good`                                                                                    *)
+Lemma rtx_last_beat_facts : forall w v crc, rtx_nbytes v <> 0 -> w < 4294967296 -> crc < 4294967296 ->
+  let nb := N.to_nat (rtx_nbytes v) in
+  let lastw := rtx_last_word v w crc in let cw := rtx_crc_word v crc in
+  firstn nb (drx_bytes4 lastw ++ drx_bytes4 (fst cw)) = firstn nb (drx_bytes4 w) /\
+  drx_le (firstn 4 (skipn nb (drx_bytes4 lastw ++ drx_bytes4 (fst cw)))) = crc /\
+  snd (lastw, 0) = 0.
+Proof.
+  intros w v crc Hn Hw Hc. cbv zeta.
+  destruct (rtx_nbytes_cases v Hn) as [[-> E]|[[-> E]|[[-> E]|[-> E]]]]; rewrite E;
+    [change (N.to_nat 1) with 1%nat | change (N.to_nat 2) with 2%nat | change (N.to_nat 3) with 3%nat | change (N.to_nat 4) with 4%nat];
+    cbn [rtx_last_word rtx_crc_word fst snd drx_bytes4 app firstn skipn drx_le]; (split; [|split; [|reflexivity]]).
+  - f_equal. bits_arith.
+  - bits_arith.
+  - f_equal; [bits_arith | f_equal; bits_arith].
+  - bits_arith.
+  - f_equal; [bits_arith | f_equal; [bits_arith | f_equal; bits_arith]].
+  - bits_arith.
+  - reflexivity.
+  - bits_arith.
+Qed.
+
+Definition rtx_zero_ctrl (w : N * N) : Prop := snd w = 0.
+
+Lemma rtx_body_split : forall crc bs, bs <> [] -> beats_ok bs = true -> crc < 4294967296 ->
+  exists pay cw more,
+    rtx_pay_rest bs crc = pay ++ cw :: more /\ length pay = length bs /\ Forall rtx_zero_ctrl pay /\
+    firstn (length (flat_map beat_bytes bs)) (sp_pbytes (pay ++ [cw])) = flat_map beat_bytes bs /\
+    drx_le (firstn 4 (skipn (length (flat_map beat_bytes bs)) (sp_pbytes (pay ++ [cw])))) = crc /\
+    (4 * (length bs - 1) < length (flat_map beat_bytes bs) <= 4 * length bs)%nat.
+Proof.
+  intros crc. induction bs as [|b t IH]; intros Hne Hok Hc; [contradiction|].
+  destruct t as [|b2 t2].
+  - cbn [beats_ok] in Hok. apply andb_true_iff in Hok as [Hn Hw]. apply N.ltb_lt in Hw.
+    assert (Hn' : rtx_nbytes (snd b) <> 0) by (destruct (rtx_nbytes (snd b) =? 0) eqn:E; [discriminate | lia]).
+    destruct b as [w v]. cbn [fst snd] in *.
+    exists [(rtx_last_word v w crc, 0)], (rtx_crc_word v crc), [rtx_fin_word v].
+    destruct (rtx_last_beat_facts w v crc Hn' Hw Hc) as [F1 [F2 _]].
+    cbn [rtx_pay_rest fst snd flat_map app length]. rewrite app_nil_r. unfold beat_bytes. cbn [fst snd].
+    assert (Hlen : length (firstn (N.to_nat (rtx_nbytes v)) (drx_bytes4 w)) = N.to_nat (rtx_nbytes v)).
+    { rewrite firstn_length. cbn [drx_bytes4 length].
+      destruct (rtx_nbytes_cases v Hn') as [[_ E]|[[_ E]|[[_ E]|[_ E]]]]; rewrite E; reflexivity. }
+    rewrite Hlen. unfold sp_pbytes. cbn [map fst flat_map app]. rewrite app_nil_r.
+    repeat split.
+    + constructor; [reflexivity | constructor].
+    + exact F1.
+    + exact F2.
+    + destruct (rtx_nbytes_cases v Hn') as [[_ E]|[[_ E]|[[_ E]|[_ E]]]]; rewrite E; cbn; lia.
+    + destruct (rtx_nbytes_cases v Hn') as [[_ E]|[[_ E]|[[_ E]|[_ E]]]]; rewrite E; cbn; lia.
+  - change (beats_ok (b :: b2 :: t2)) with ((snd b =? 15) && (fst b <? 4294967296) && beats_ok (b2 :: t2)) in Hok.
+    apply andb_true_iff in Hok as [Hb Hok]. apply andb_true_iff in Hb as [Hv Hw]. apply N.eqb_eq in Hv. apply N.ltb_lt in Hw.
+    destruct (IH ltac:(discriminate) Hok Hc) as [pay [cw [more [E [Hl [Hz [F1 [F2 F3]]]]]]]].
+    exists ((fst b, 0) :: pay), cw, more.
+    change (rtx_pay_rest (b :: b2 :: t2) crc) with ((fst b, 0) :: rtx_pay_rest (b2 :: t2) crc). rewrite E.
+    change (flat_map beat_bytes (b :: b2 :: t2)) with (beat_bytes b ++ flat_map beat_bytes (b2 :: t2)).
+    unfold beat_bytes at 1 3 5 7. rewrite Hv. change (N.to_nat (rtx_nbytes 15)) with 4%nat.
+    change (firstn 4 (drx_bytes4 (fst b))) with (drx_bytes4 (fst b)).
+    set (P := flat_map beat_bytes (b2 :: t2)) in *.
+    change (sp_pbytes (((fst b, 0) :: pay) ++ [cw])) with (drx_bytes4 (fst b) ++ sp_pbytes (pay ++ [cw])).
+    rewrite app_length. change (length (drx_bytes4 (fst b))) with 4%nat.
+    repeat split.
+    + cbn [length]. rewrite Hl. reflexivity.
+    + constructor; [reflexivity | exact Hz].
+    + rewrite firstn_app. change (length (drx_bytes4 (fst b))) with 4%nat.
+      rewrite firstn_all2 by (cbn [drx_bytes4 length]; lia). f_equal.
+      replace (4 + length P - 4)%nat with (length P) by lia. exact F1.
+    + rewrite skipn_app. change (length (drx_bytes4 (fst b))) with 4%nat.
+      rewrite skipn_all2 by (cbn [drx_bytes4 length]; lia). cbn [app].
+      replace (4 + length P - 4)%nat with (length P) by lia. exact F2.
+    + cbn [length] in *. lia.
+    + cbn [length] in *. lia.
+Qed.
+
+Lemma rtx_clean_zero : forall lw ws pay k, Forall rtx_zero_ctrl pay -> sp_clean lw ws k pay = true.
+Proof.
+  intros lw ws. induction pay as [|w t IH]; intros k H; [reflexivity|].
+  inversion H as [|? ? Hw Ht]; subst. cbn [sp_clean]. unfold rtx_zero_ctrl in Hw. rewrite Hw, N.land_0_l, N.eqb_refl.
+  cbn [andb]. apply IH. exact Ht.
+Qed.
+
+Theorem rtx_data_roundtrip : forall lw p rest, rtx_pkt_ok p ->
+  bits (p_dw0 p) 0 5 = DRX_TYPE_DATA -> p_delayed p = false ->
+  bits (p_dw1 p) 16 lw = N.of_nat (length (p_payload p)) ->
+  let ws := [p_dw0 p; p_dw1 p; p_dw2 p; rtx_dw3 (crc16_hdr [p_dw0 p; p_dw1 p; p_dw2 p]) (p_lf p)] in
+  exists pay more,
+    sp_run crc16_hdr crc32_usb lw SIdle (wire crc16_hdr crc32_usb p ++ rest)
+    = sp_beats lw ws 0 pay ++ Report (sp_hdr ws) true :: sp_run crc16_hdr crc32_usb lw SIdle (more ++ rest) /\
+    flat_map drx_beat_bytes (sp_beats lw ws 0 pay) = p_payload p.
+Proof.
+  intros lw p rest (H0 & H1 & H2 & H3 & Hb) Ht Hd HL ws.
+  rewrite (rtx_wire_explicit crc16_hdr crc32_usb p Hb drx_crc32_lt).
+  unfold rtx_wire_x, rtx_rest_x, rtx_d3w, rtx_dpp_x.
+  assert (Hdata : p_is_data p = true).
+  { unfold p_is_data. unfold DRX_TYPE_DATA in Ht. rewrite bits_spec in *. change (2 ^ 0) with 1 in *.
+    change (2 ^ 5) with 32 in Ht. change (2 ^ 4) with 16. apply N.eqb_eq. lia. }
+  rewrite Hdata, Hd.
+  destruct (rtx_dw3_fields (crc16_hdr [p_dw0 p; p_dw1 p; p_dw2 p]) (p_lf p) (drx_crc16h_lt _)) as [F0 [F11 [F5 [F3 Fb]]]].
+  assert (Hok : sp_hdr_ok crc16_hdr ws = true).
+  { unfold sp_hdr_ok, ws. cbn [firstn nth]. rewrite F0, F11, F5, !N.eqb_refl. reflexivity. }
+  assert (HLen : sp_len lw ws = N.of_nat (length (p_payload p))) by (unfold sp_len, ws; cbn [nth]; exact HL).
+  set (crc := crc32_usb (p_payload p)).
+  destruct (p_beats p) as [|b0 t0] eqn:EB.
+  - (* zero-length packet *)
+    assert (Hpl : p_payload p = []) by (unfold p_payload; rewrite EB; reflexivity).
+    exists [rtx_crc_word 15 crc], []. cbn [app]. rewrite Hpl in *. cbn [length N.of_nat] in HLen. split.
+    + change ((RTX_HPSTART :: (p_dw0 p, 0) :: (p_dw1 p, 0) :: (p_dw2 p, 0)
+               :: (rtx_dw3 (crc16_hdr [p_dw0 p; p_dw1 p; p_dw2 p]) (p_lf p), 0)
+               :: RTX_DPPSTART :: [rtx_crc_word 15 crc; rtx_fin_word 15]) ++ rest)
+        with ((DRX_HPSTART, 15) :: (p_dw0 p, 0) :: (p_dw1 p, 0) :: (p_dw2 p, 0)
+               :: (rtx_dw3 (crc16_hdr [p_dw0 p; p_dw1 p; p_dw2 p]) (p_lf p), 0)
+               :: (DRX_DPPSTART, 15) :: [rtx_crc_word 15 crc] ++ rtx_fin_word 15 :: rest).
+      rewrite (sp_good_packet crc16_hdr crc32_usb lw); try assumption.
+      * fold ws. f_equal. f_equal. f_equal.
+        unfold sp_verdict. fold ws. rewrite HLen. cbn [N.to_nat firstn skipn]. unfold crc.
+        unfold sp_pbytes. cbn [rtx_crc_word app map fst flat_map firstn drx_bytes4]. 
+        change [bits (crc32_usb []) 0 8; bits (crc32_usb []) 8 8; bits (crc32_usb []) 16 8; bits (crc32_usb []) 24 8]
+          with (drx_bytes4 (crc32_usb [])). rewrite drx_le_word by apply drx_crc32_lt. apply N.eqb_refl.
+      * fold ws. rewrite HLen. reflexivity.
+      * fold ws. apply rtx_clean_zero. constructor; [reflexivity | constructor].
+    + cbn [sp_beats]. fold ws. rewrite HLen. reflexivity.
+  - (* at least one beat *)
+    rewrite <- EB in *.
+    assert (Hne : p_beats p <> []) by (rewrite EB; discriminate).
+    destruct (rtx_body_split crc (p_beats p) Hne Hb (drx_crc32_lt _)) as [pay [cw [more [E [Hl [Hz [F1 [F2 F3]]]]]]]].
+    fold (p_payload p) in F1, F2, F3.
+    exists pay, more.
+    assert (Hmatch : match p_beats p with [] => [rtx_crc_word 15 crc; rtx_fin_word 15] | _ :: _ => rtx_pay_rest (p_beats p) crc end
+                     = pay ++ cw :: more) by (rewrite EB in *; exact E).
+    rewrite EB. rewrite EB in Hmatch. cbv beta iota in Hmatch |- *. rewrite <- EB in *.
+    assert (Hn : N.of_nat (length pay) = sp_nwords (sp_len lw ws)).
+    { rewrite HLen, Hl. unfold sp_nwords. destruct (N.of_nat (length (p_payload p)) =? 0) eqn:E0; lia. }
+    split.
+    + change ((RTX_HPSTART :: (p_dw0 p, 0) :: (p_dw1 p, 0) :: (p_dw2 p, 0)
+               :: (rtx_dw3 (crc16_hdr [p_dw0 p; p_dw1 p; p_dw2 p]) (p_lf p), 0)
+               :: RTX_DPPSTART :: rtx_pay_rest (p_beats p) crc) ++ rest)
+        with ((DRX_HPSTART, 15) :: (p_dw0 p, 0) :: (p_dw1 p, 0) :: (p_dw2 p, 0)
+               :: (rtx_dw3 (crc16_hdr [p_dw0 p; p_dw1 p; p_dw2 p]) (p_lf p), 0)
+               :: (DRX_DPPSTART, 15) :: rtx_pay_rest (p_beats p) crc ++ rest).
+      rewrite E, <- app_assoc. cbn [app].
+      rewrite (sp_good_packet crc16_hdr crc32_usb lw); try assumption.
+      * fold ws. f_equal. f_equal. f_equal.
+        unfold sp_verdict. fold ws. rewrite HLen, Nat2N.id, F1, F2. apply N.eqb_refl.
+      * fold ws. apply rtx_clean_zero. exact Hz.
+    + rewrite drx_beats_bytes. fold ws. rewrite N.mul_0_r, N.sub_0_r, HLen, Nat2N.id.
+      rewrite <- F1 at 2. unfold sp_pbytes. rewrite map_app, flat_map_app, firstn_app.
+      replace (length (p_payload p) - length (flat_map drx_bytes4 (map fst pay)))%nat with 0%nat.
+      * rewrite firstn_O, app_nil_r. reflexivity.
+      * change (flat_map drx_bytes4 (map fst pay)) with (drx_wbytes pay). rewrite drx_wbytes_length. lia.
+Qed.
